@@ -230,7 +230,10 @@ def run_check(prop, tier, repo, jobs, seed):
     xh_results = []
     if hasattr(mod, "xh_conditions"):
         from symx import xh
-        xh_results = xh.run_conditions(mod.xh_conditions(tier), repo, jobs, tier)
+        _conds = mod.xh_conditions(tier)
+        for _c in _conds:
+            _c.setdefault("prop", prop)
+        xh_results = xh.run_conditions(_conds, repo, jobs, tier)
     # ---- aggregate -----------------------------------------------------------
     agg = {}
     per_h = {}
